@@ -32,3 +32,8 @@ def run_shard(spec):
 
 def replay(blob):
     return _cache.replay("C05", blob)
+
+
+# thorough tier only: the repository's own test suite, run under the invariant monitors of vlib/suite_monitors.py
+from . import _suite  # noqa: E402
+_suite.attach(globals(), "c05.", "suite.c05.structure", 700)
